@@ -49,6 +49,14 @@ ASSUMPTIONS = ['numpy legacy generator: get_state/set_state are exact inverses; 
 TRUSTED_EXTRA = ['sha256 over (MT19937 key bytes, pos, has_gauss, cached_gaussian if has_gauss) as the identity of a generator state']
 
 SEEDS = (1, 2, 3, 4)
+# seed-value variety: both sides of the int32 / uint32 boundaries (all valid for RandomState / np.random.seed)
+SEED_VALUES = (0, 1, 42, 2 ** 31 - 1, 2 ** 31, 2 ** 31 + 12345, 2 ** 32 - 1)
+
+
+def tie_seed(rng):
+    """small seeds most of the time (they make streams coincide, which is what the tie compares), the
+    boundary values otherwise"""
+    return rng.choice(SEEDS) if rng.random() < 0.7 else rng.choice(SEED_VALUES)
 NS = (1, 2, 3, 5)
 DATASETS = ('bivariate_age_income', 'trivariate_xyz', 'univariate_bernoulli', 'univariate_uniform', 'univariate_normal',
             'univariate_degenerate', 'univariate_exponential', 'univariate_beta')
@@ -340,10 +348,10 @@ def gen_history(rng, zoo, max_len):
         if r < 0.12:
             return None
         if r < 0.6:
-            return ('int', rng.choice(SEEDS))
+            return ('int', tie_seed(rng))
         if callers and r < 0.75:
             return ('obj', rng.randrange(len(callers)))       # share an existing caller object
-        callers.append(rng.choice(SEEDS))
+        callers.append(tie_seed(rng))
         return ('obj', len(callers) - 1)
     twins = rng.random() < 0.7
     while len(models) < n_models:
@@ -369,7 +377,7 @@ def gen_history(rng, zoo, max_len):
         if r < 0.86:
             return ('n', m)
         if r < 0.95 or not callers:
-            return ('i', m, rng.choice(SEEDS))
+            return ('i', m, tie_seed(rng))
         return ('o', m, rng.randrange(len(callers)))
 
     def rand_other_op():
@@ -377,10 +385,10 @@ def gen_history(rng, zoo, max_len):
         if r < 0.25 and callers:
             return ('d', rng.randrange(len(callers)), rng.choice((1, 2, 3)))
         if r < 0.55:
-            return ('g', rng.choice(SEEDS))
+            return ('g', tie_seed(rng))
         if r < 0.9:
-            return ('D', rng.choice(DATASETS), rng.choice((3, 42)), rng.choice((1, 4, 10)))
-        return ('B', rng.choice((3, 42)), rng.choice((1, 4, 10)))
+            return ('D', rng.choice(DATASETS), rng.choice((3, 42, tie_seed(rng))), rng.choice((1, 4, 10)))
+        return ('B', rng.choice((3, 42, tie_seed(rng))), rng.choice((1, 4, 10)))
     length = rng.randint(max(4, max_len // 3), max_len)
     streams = []
     if twins:
@@ -388,7 +396,7 @@ def gen_history(rng, zoo, max_len):
         for _ in range(rng.randint(2, max(2, length // 3))):
             o = rand_model_op(0)
             if o[0] == 'o':
-                o = ('i', 0, rng.choice(SEEDS))
+                o = ('i', 0, tie_seed(rng))
             script.append(o)
         streams.append([tuple(script_op) for script_op in script])
         streams.append([(o[0], 1) + tuple(o[2:]) for o in script])
@@ -818,7 +826,7 @@ def search(ctx, deep, only=None):
             good = [c for c in p.ok_calls if c.draws and not c.raises]
             after = [c for c in p.ok_calls + p.bad_calls if c.draws and c.raises]
             before = [c for c in p.ok_calls + p.bad_calls if not c.draws and c.raises]
-            seed = rng.choice(SEEDS)
+            seed = rng.choice(SEEDS) if rng.random() < 0.7 else rng.choice(SEED_VALUES[:-1])
             as_obj = rng.random() < 0.4
             prior1, prior2 = rng.randrange(1000, 10 ** 6), rng.randrange(1000, 10 ** 6)
 
@@ -1077,6 +1085,117 @@ def search(ctx, deep, only=None):
             ctx.fail_input('datasets.sample_univariates', {'size': size, 'seed': seed},
                            {'global_changed': gdig() != g0, 'rows': len(df), 'columns_differing': bad},
                            'deterministic, size rows, global untouched', 'datasets.sample_univariates:contract')
+    # ---- O10 seed values: int s == RandomState(s) == np.random.seed(s); distinct seeds, distinct streams
+    def seed_fail(entry, what, inp, obs, req):
+        nonlocal found
+        found += 1
+        ctx.fail_input(entry, inp, obs, req, f'validate_random_state:{what}')
+
+    def collide_key(s1, s2):
+        return 'large-int-seed-collides' if max(s1, s2) >= 2 ** 31 else 'int-seeds-collide'
+    protos = [p for p in zoo if [c for c in p.ok_calls if c.draws and not c.raises]]
+    if not deep and len(protos) > 8:
+        # quick tier: one prototype of every kind + a few random ones, all seed values each
+        kinds = {}
+        for p in protos:
+            kinds.setdefault(p.kind, []).append(p)
+        protos = [rng.choice(v) for v in kinds.values()] + rng.sample(protos, 4)
+    for p in protos:
+        c = rng.choice([c for c in p.ok_calls if c.draws and not c.raises])
+        firsts = {}
+        for s_val in SEED_VALUES:
+            inp = {'proto': p.name, 'seed': s_val, 'call': c.label}
+            np.random.seed(rng.randrange(1000, 10 ** 6))
+            a = p.new(s_val, rng.random() < 0.5)
+            x = snapshot(c.run(a))
+            u = p.new(None, False)
+            np.random.seed(s_val)
+            y = snapshot(c.run(u))
+            np.random.seed(rng.randrange(1000, 10 ** 6))
+            rs = np.random.RandomState(s_val)
+            z = snapshot(c.run(p.new(rs, False)))
+            b = p.new(1, False)
+            b.set_random_state(s_val)
+            t = snapshot(c.run(b))
+            checks += 3
+            if not (snap_equal(x, y) and snap_equal(x, z) and snap_equal(x, t)):
+                seed_fail(f'{p.cls_name}.sample', 'int-seed-not-the-RandomState-of-it', inp,
+                          {'equals_unseeded_after_np_random_seed': snap_equal(x, y), 'equals_RandomState_seed': snap_equal(x, z),
+                           'ctor_equals_set_random_state': snap_equal(x, t)},
+                          'model(seed=s).sample == equal unseeded model after np.random.seed(s) == model(seed=RandomState(s)).sample')
+            for s_old, x_old in firsts.items():
+                checks += 1
+                if p.continuous and snap_equal(x, x_old):
+                    seed_fail(f'{p.cls_name}.sample', collide_key(s_val, s_old), dict(inp, other_seed=s_old),
+                              'two equal models with different seeds returned the same data',
+                              'the stream is a function of the seed: distinct seeds give distinct streams')
+            firsts[s_val] = x
+            # numpy integer scalars: either rejected (TypeError, nothing touched) or the same as the int
+            if rng.random() < 0.35:
+                for T in (np.int64, np.uint32):
+                    if s_val > np.iinfo(T).max:
+                        continue
+                    m = p.new(3, False)
+                    before = mdig(m)
+                    checks += 1
+                    try:
+                        m.set_random_state(T(s_val))
+                    except TypeError:
+                        if mdig(m) != before:
+                            seed_fail(f'{p.cls_name}.set_random_state', 'rejected-seed-changes-state', dict(inp, type=T.__name__),
+                                      'random_state changed although the seed was rejected', 'a rejected seed leaves the model as it was')
+                        continue
+                    if not snap_equal(snapshot(c.run(m)), x):
+                        seed_fail(f'{p.cls_name}.sample', 'numpy-int-seed-differs-from-int', dict(inp, type=T.__name__),
+                                  'an accepted numpy integer seed gives another stream than the equal int', 'same value, same stream')
+    # ---- O11 dataset generators: seed values; a RandomState given as seed is only read
+    gens = {n: getattr(datasets, 'sample_' + n) for n in ALL_GENERATORS}
+    for n, f in gens.items():
+        size = rng.choice((1, 3, 20))
+        firsts = {}
+        for s_val in SEED_VALUES:
+            inp = {'size': size, 'seed': s_val}
+            x = snapshot(f(size, s_val))
+            rs = np.random.RandomState(s_val)
+            d0 = state_digest(rs.get_state())
+            np.random.seed(rng.randrange(10 ** 6))
+            g0 = gdig()
+            r1 = snapshot(f(size, rs))
+            d1 = state_digest(rs.get_state())
+            r2 = snapshot(f(size=size, seed=rs))
+            checks += 4
+
+            def dsf(what, obs, req, key=None):
+                nonlocal found
+                found += 1
+                ctx.fail_input(f'datasets.sample_{n}', dict(inp, seed_as='np.random.RandomState(seed)'), obs, req,
+                               key or f'datasets.sample_{n}:{what}')
+            if d1 != d0 or state_digest(rs.get_state()) != d0:
+                dsf('caller-randomstate-mutated', 'the RandomState passed as seed was advanced', 'the caller\'s object is only read')
+            if not snap_equal(r1, r2):
+                dsf('randomstate-seed-not-repeatable', 'two calls with the same (size, seed object) differ', 'deterministic in (size, seed)')
+            if not snap_equal(r1, x):
+                dsf('randomstate-seed-differs-from-int', 'RandomState(s) as seed gives other data than the int s',
+                    'validate_random_state(s) is RandomState(s)')
+            if gdig() != g0:
+                dsf('global-perturbed', 'np.random.get_state() changed', 'the generators leave the global state untouched')
+            for s_old, x_old in firsts.items():
+                checks += 1
+                if n not in ('univariate_bernoulli',) and snap_equal(x, x_old):
+                    found += 1
+                    ctx.fail_input(f'datasets.sample_{n}', dict(inp, other_seed=s_old), 'different seeds, identical data',
+                                   'the data are a function of the seed: distinct seeds give distinct data',
+                                   f'validate_random_state:{collide_key(s_val, s_old)}')
+            firsts[s_val] = x
+            for T in (np.int64, np.uint32):
+                if s_val <= np.iinfo(T).max and rng.random() < 0.2:
+                    checks += 1
+                    try:
+                        y = snapshot(f(size, T(s_val)))
+                    except TypeError:
+                        continue
+                    if not snap_equal(y, x):
+                        dsf('numpy-int-seed-differs-from-int', f'{T.__name__}({s_val}) gives other data than the int', 'same value, same data')
     ctx.support = {'oracle_checks': checks, 'failures': found, 'deep': deep,
                    'table': 'repaired' if table.get('Univariate') else 'as-found'}
 
